@@ -22,10 +22,20 @@ def unfolds_for(fam, meth):
     return u
 
 
+# designed extreme cases of the stated box (|tau| <= 0.8, [1e-4, 1-1e-4]^2): the ends of every family's parameter range at the four corners
+# and next to the diagonal, where a formula that is algebraically equal but numerically fragile (cancellation, overflow) shows first
+DESIGNED = [(fam, meth, th, u, v)
+            for fam, ths in (('clayton', [8.0, 0.05]), ('frank', [18.2, -18.2, 0.05]), ('gumbel', [5.0, 1.02]))
+            for th in ths
+            for meth in ('partial_derivative', 'probability_density')
+            for (u, v) in ((0.999, 0.999), (1 - 1e-4, 1 - 1e-4), (1e-4, 1e-4), (1e-4, 1 - 1e-4), (1 - 1e-4, 1e-4), (0.9999, 0.98), (0.5, 0.5001))]
+
+
 def corr_goals(ctx, n):
     rng = np.random.default_rng(ctx.seed + 7)
     goals = []
-    for i in range(n):
+    designed = DESIGNED if ctx.tier != 'quick' else [d for k, d in enumerate(DESIGNED) if d[3:] in ((0.999, 0.999), (1e-4, 1e-4), (1 - 1e-4, 1e-4)) and d[2] in (8.0, 18.2, -18.2, 5.0)]
+    for i in range(n + len(designed)):
         fam = FAMS[i % 3]
         meth = ['partial_derivative', 'probability_density'][(i // 3) % 2]
         th = implbiv.sample_theta(rng, fam, edge=(rng.random() < 0.15))
@@ -33,6 +43,8 @@ def corr_goals(ctx, n):
         if rng.random() < 0.25:     # near the corners of the stated box
             u = float(rng.choice([1e-4, 1 - 1e-4, rng.uniform(0.98, 1 - 1e-4)]))
             v = float(rng.choice([1e-4, 1 - 1e-4, rng.uniform(0.98, 1 - 1e-4)]))
+        if i >= n:
+            fam, meth, th, u, v = designed[i - n]
         c = implbiv.make(fam, th)
         with np.errstate(all='ignore'):
             y = float(np.asarray(getattr(c, meth)(np.array([[u, v]])))[0])
